@@ -134,4 +134,32 @@ def tlpProbe (s : Tx) (now : Nat) : Tx :=
              sentQ := s.sentQ.map (fun r => if r.tsn == t then
                { r with needsRetransmit := true, transmitCount := r.transmitCount + 1, sentMs := now, inFlight := true } else r) }
 
+/-! ### handle_sack (the sender's bookkeeping around `apply_sack_to_sent_queue`) -/
+
+/-- `sack_sig`: 64-bit signature of (cumulative TSN, gap blocks); a SACK with the signature of the
+previous one does not count missing reports again -/
+def sackSig (cum : UInt32) (gaps : List (UInt16 × UInt16)) : UInt64 :=
+  gaps.foldl (fun (sig : UInt64) g =>
+      sig * (0x9E3779B185EBCA87 : UInt64) + (((g.1.toUInt64 <<< (16 : UInt64)) ||| g.2.toUInt64) ^^^ (sig >>> (32 : UInt64))))
+    (cum.toUInt64 <<< (32 : UInt64))
+
+/-- what the sender remembers of earlier SACKs: `peer_cumulative_ack`, `last_sack_sig` -/
+structure SackHist where
+  peerCumAck : UInt32 := 0
+  lastSig    : UInt64 := 0
+deriving DecidableEq, Repr, Inhabited
+
+/-- `handle_sack` on a sender with an empty outbound queue (congestion-window arithmetic left out:
+it only decides how much *new* data the closing `transmit()` may take).  The SACK is applied with
+**its own** cumulative TSN — gap-block offsets are relative to it — whether or not a newer SACK
+was seen before; only `a_rwnd` of an overtaken SACK is ignored. -/
+def handleSackTx (s : Tx) (h : SackHist) (cum : UInt32) (arwnd : Nat) (gaps : List (UInt16 × UInt16))
+    (now maxTsnRetransmits : Nat) : Tx × SackHist × List TxItem :=
+  let rw := if tsnGt h.peerCumAck cum then s.peerRwnd else arwnd
+  let pc := if tsnGt cum h.peerCumAck then cum else h.peerCumAck
+  let sig := sackSig cum gaps
+  let r := applySack s.sentQ cum gaps now (sig != h.lastSig) maxTsnRetransmits
+  let t := transmit { s with sentQ := r.1, peerRwnd := rw, flight := s.flight - r.2.flightReduction } false now
+  (t.1, { peerCumAck := pc, lastSig := sig }, t.2)
+
 end RtcModel.Sctp
